@@ -269,6 +269,27 @@ gproof! { fn c11_arc_offset_roundtrip__tr16() {
     core::mem::forget(b);
 } }
 
+macro_rules! h_offset_roundtrip_small {
+    ($name:ident, $T:ty, $v:expr) => {
+        gproof! { fn $name() {
+            let n = any_count();
+            let a = mk($v, n);
+            let (b0, d0, c0) = (base(&a), data(&a), cw(&a));
+            let o = Arc::into_raw_offset(a);
+            assert!(unsafe { core::mem::transmute_copy::<OffsetArc<$T>, usize>(&o) } == d0);
+            let b = Arc::from_raw_offset(o);
+            assert!(base(&b) == b0 && cnt(&b) == n && rd(c0) == n && vrt::ga(1) && vrt::gd(0));
+            core::mem::forget(b);
+        } }
+    };
+}
+// @h props=C11,C01,C04 fuc=Arc::into_raw_offset,Arc::from_raw_offset note="payload smaller than a word (tail padding in ArcInner)"
+h_offset_roundtrip_small!(c11_arc_offset_roundtrip__s1, S1, S1::any());
+// @h props=C11,C01 fuc=Arc::into_raw_offset,Arc::from_raw_offset note="3-byte payload"
+h_offset_roundtrip_small!(c11_arc_offset_roundtrip__s3, vrt::S3, vrt::S3::any());
+// @h props=C11,C01 fuc=Arc::into_raw_offset,Arc::from_raw_offset note="4-byte, 4-aligned payload"
+h_offset_roundtrip_small!(c11_arc_offset_roundtrip__s4a4, S4a4, S4a4::any());
+
 // @h props=C01,C04,C11 fuc=Arc::into_raw_offset,Arc::from_raw_offset
 gproof! { fn c11_arc_offset_roundtrip__zst() {
     let n = any_count();
@@ -1260,7 +1281,7 @@ pub(crate) mod uns_h {
     use crate::vrt::{any_count, base, cnt, cw, data, mk, rd, set_cnt, Probe, Tr8};
     use unsize::{CoerceUnsize, Coercion};
 
-    // @h props=C01,C05,C11 mod=uns_h features=unsize,arc-swap fuc=Arc::replace_ptr,Arc::as_sized_ptr note="Arc<[u8;4]> -> Arc<[u8]>"
+    // @h props=C01,C04,C05,C11 mod=uns_h features=unsize,arc-swap fuc=Arc::replace_ptr,Arc::as_sized_ptr note="Arc<[u8;4]> -> Arc<[u8]>"
     gproof! { fn c01_unsize_arc_array_to_slice() {
         let n = any_count();
         let x = mk([1u8, 2, 3, 4], n);
@@ -1282,7 +1303,7 @@ pub(crate) mod uns_h {
         if n == 1 { assert!(vrt::drops() == 1 && vrt::dropped(id) && vrt::gd(1)); } else { assert!(vrt::drops() == 0 && rd(c0) == n - 1 && vrt::gd(0)); }
     } }
 
-    // @h props=C01,C03 mod=uns_h features=unsize,arc-swap fuc=UniqueArc::replace_ptr
+    // @h props=C01,C03,C04 mod=uns_h features=unsize,arc-swap fuc=UniqueArc::replace_ptr
     gproof! { fn c01_unsize_unique_array_to_slice() {
         let u = UniqueArc::new([7u8, 8, 9]);
         let b0 = base(crate::unique_arc::kani_h::inner_arc(&u));
